@@ -374,3 +374,6 @@ def b_events(rng, tier):
                         ok, det = False, repr(ex)
                     env = "inside-known-envelope" if (ok or (isinstance(det, tuple) and abs(det[1]) < 0.1)) else "beyond-known-envelope"
                     yield ((pl, "passage_nodes", asc, round(q.jde(), 2), env), ok, det)
+
+
+P.frame_check()
